@@ -2279,6 +2279,13 @@ restore_entry(struct archive_write_disk *a)
 			if ((a->mode != a->st.st_mode)
 			    && (a->todo & TODO_MODE_FORCE))
 				a->deferred |= (a->todo & TODO_MODE);
+			/*
+			 * Defer the times exactly as for a directory we
+			 * have just created: entries restored into it
+			 * later would change them again.
+			 */
+			a->deferred |= (a->todo & TODO_TIMES);
+			a->todo &= ~TODO_TIMES;
 			/* Ownership doesn't need deferred fixup. */
 			en = 0; /* Forget the EEXIST. */
 		}
